@@ -49,3 +49,7 @@ pub fn builtin_open_shim(args: Vec<Rc<Object>>) -> (r: Result<Rc<Object>, String
 pub fn clone_args(a: &Vec<Rc<Object>>) -> (r: Vec<Rc<Object>>) ensures r@ == a@ { a.clone() }
 #[verifier::external_body]
 pub fn str_eq(a: &str, b: &str) -> (r: bool) ensures r == (a@ == b@) { a == b }
+
+// Result::unwrap / expect panic on Err: callable only when the result is known to be Ok
+#[verifier::external_body]
+pub fn os_result_unwrap(r: Result<(), IoError>) requires r is Ok { unimplemented!() }
